@@ -452,7 +452,7 @@ def run(ctx):
         "only the named field changes (all 25 paths)": "proved over the generated table (record-level frame) + measured on SPDC::as_config",
         "named field = requested value in the path's unit (all 25 paths)": "proved against the hand-pinned unit table + measured (4 decimals)",
         "THz = 1e12 cycles per second (3 paths)": "proved (stored 2 pi v 1e12 rad/s; shown as c/(v 1e12) nm) + measured — was violated before /repo c033754 (finding F8, fixed)",
-        "external angle stored as Snell-equivalent internal angle": "proved modulo the Snell oracle; readback through Beam::theta_external measured (1e-5)",
+        "external angle stored as Snell-equivalent internal angle": "proved against the C13 Snell contract (C18_external_angle_partial: |sin e - n(th) sin th| <= optimiser residual, view shows th, read-back within r/cos M); convergence of the simplex and the read-back measured per input",
         "poling period keeps its derived sign": "proved on every base (poled: apodization kept; unpoled: poling created) modulo the compute_sign oracle + measured — "
                                                 "on an unpoled base the setter did nothing before /repo 7f110fb (finding F9, fixed)",
         "unknown paths rejected": "proved (get_setter p = None <-> p not in the documented list) + measured",
